@@ -11,6 +11,14 @@ C44  Parallel JIT library builds compile objects after their module dependencies
      before the work queue is left; the linker runs after ``_build_objs``.
  R4  build-once guard ``obj.q_task is None``; ``Obj.build`` records the task it
      schedules; ``wait_and_check`` blocks on the task and re-raises failures.
+ R5  single writer: ``obj_dependencies`` (what the scheduler waits on) is written
+     only by ``Builder.get_dependency_graph``; ``Obj`` instances are cached by
+     name and ``Obj.__init__`` runs on every ``Obj(...)`` call, so an assignment
+     there would wipe the record of an already expanded object.  ``q_task`` is
+     written only by ``Obj.__init__`` / ``Obj.build``.
+ R6  the cache key of ``Obj`` is lower-cased on every path (module names in USE
+     statements are case-insensitive; a raw explicit name resolves to a fresh,
+     source-less object and the dependency edge is lost).
 Not decided: timing, timeouts, .mod races inside one compiler process.
 """
 import ast
@@ -18,6 +26,7 @@ import ast
 from sa import exprs as X
 from sa.model import AnalysisError
 from sa.mutate import Mutant
+from sa.fold import classify
 
 PROP = 'C44'
 
@@ -170,6 +179,53 @@ def run(ctx):
     (ctx.judge('R4', 'wait_and_check blocks and re-raises') if res and rs else
      ctx.violation('R4', 'wait_and_check', wc.where, 'wait_and_check does not block on task.result() / re-raise failures'))
 
+    # ---- R5 single writer
+    ctx.rule('R5', 'attribute obj_dependencies is assigned only in Builder.get_dependency_graph; q_task only in Obj.__init__/Obj.build')
+    ctx.rule('R6', 'the name handed to the Obj instance cache is lower-cased on every path of Obj.__new__')
+    writers = {'obj_dependencies': set(), 'q_task': set()}
+    for rel in (LIB, BLD, OBJ, WQ, 'loki/jit_build/jit.py', 'loki/jit_build/header.py', 'loki/jit_build/compiler.py'):
+        try:
+            mod = m.module_by_path(rel)
+        except AnalysisError:
+            continue
+        for fn in [n for n in ast.walk(mod.tree) if isinstance(n, (ast.FunctionDef, ast.AsyncFunctionDef))]:
+            for n in ast.walk(fn):
+                tgts = []
+                if isinstance(n, ast.Assign):
+                    tgts = n.targets
+                elif isinstance(n, (ast.AugAssign, ast.AnnAssign)):
+                    tgts = [n.target]
+                for t in tgts:
+                    for x in ast.walk(t):
+                        if isinstance(x, ast.Attribute) and x.attr in writers and isinstance(x.ctx, ast.Store):
+                            writers[x.attr].add((mod.relpath, fn.name, n.lineno))
+    ALLOWED = {'obj_dependencies': {'get_dependency_graph'}, 'q_task': {'__init__', 'build'}}
+    for attr, ws in writers.items():
+        if not ws:
+            raise AnalysisError(f'no writer of {attr} found')
+        for rel, fname, line in sorted(ws):
+            inst = f'{attr} written in {fname}'
+            if fname in ALLOWED[attr]:
+                ctx.judge('R5', inst, facts={'where': f'{rel}:{line}'})
+            else:
+                ctx.violation('R5', f'{fname}:{attr}', f'{rel}:{line}',
+                              f'{fname} assigns .{attr}: Obj instances are cached by name and re-initialised on every Obj(...) call, '
+                              f'so this resets scheduling state that _build_objs relies on (an object is then scheduled without '
+                              f'waiting for its providers)')
+    # ---- R6
+    oc = m.get_class(OBJ, 'Obj')
+    new = oc.function('__new__')
+    calls = [c for c in ast.walk(new.node) if isinstance(c, ast.Call) and 'xnew_cached' in (X.dotted_attr(c.func) or '')]
+    if not calls or len(calls[0].args) < 2:
+        raise AnalysisError('Obj.__new__: cache call not found')
+    key = calls[0].args[1]
+    r = classify(key, new.node, at=calls[0].lineno)
+    facts = {'key': ast.unparse(key), 'classification': str(r)}
+    (ctx.judge('R6', 'Obj cache key folded', facts=facts) if r == 'folded' else
+     ctx.violation('R6', 'Obj.__new__:cache-key', new.where,
+                   f'the cache key `{ast.unparse(key)}` is not lower-cased on every path ({r}): `USE Kinds_Mod` resolves to a new '
+                   f'source-less Obj instead of the object built from kinds_mod.F90', facts=facts))
+
 
 MUTANTS = [
     Mutant('no-wait', LIB,
@@ -188,6 +244,10 @@ MUTANTS = [
     Mutant('guard-dropped', LIB, "                if obj.source_path and obj.q_task is None:", "                if obj.source_path:", expect=('R4', 'build-once')),
     Mutant('task-not-recorded', OBJ, "            self.q_task = workqueue.execute(args, log_queue=workqueue.log_queue)",
            "            workqueue.execute(args, log_queue=workqueue.log_queue)", expect=('R4', 'Obj.build:q_task')),
+    Mutant('init-resets-deps', OBJ, "        self.q_task = None  # The parallel worker task\n",
+           "        self.q_task = None  # The parallel worker task\n        self.obj_dependencies = []\n", expect=('R5', '__init__:obj_dependencies')),
+    Mutant('name-fold-partial', OBJ, "        name = name or Path(kwargs.get('source_path')).stem\n        name = name.lower()  # Ensure no-caps!\n",
+           "        name = name or Path(kwargs.get('source_path')).stem.lower()\n", expect=('R6', 'cache-key')),
     Mutant('wait-only-first-dep', LIB,
            "                        for dep in obj.obj_dependencies:\n                            wait_and_check(dep.q_task, logger=logger)\n",
            "                        for dep in obj.obj_dependencies:\n                            wait_and_check(dep.q_task, logger=logger)\n                            break\n",
